@@ -58,6 +58,8 @@ impl Table {
         while !rest.is_empty() {
             if rest.starts_with(self.a) { out.push("a"); rest = &rest[self.a.len()..] }
             else if rest.starts_with(self.b) { out.push("b"); rest = &rest[self.b.len()..] }
+            else if rest.starts_with('-') { out.push("-"); rest = &rest[1..] }
+            else if rest.starts_with('.') { out.push("."); rest = &rest[1..] }
             else { return json!(["?"]) }
         }
         json!(out)
@@ -170,7 +172,7 @@ pub fn run(scn: &Value) -> Value {
 pub fn gen(rng: &mut Rng, idx: usize) -> Value {
     let c04 = idx % 2 == 1;
     let napps = rng.range(1, 3);
-    let segstr = [vec!["a"], vec!["b"], vec!["a", "b"], vec!["a", "a"], vec!["b", "a"], vec!["a", "b", "a"]];
+    let segstr = [vec!["a"], vec!["b"], vec!["a", "b"], vec!["a", "a"], vec!["b", "a"], vec!["a", "b", "a"], vec!["a", "-", "a"], vec!["a", ".", "b"], vec!["b", "-", "a"]];
     let mut apps: Vec<(Vec<i64>, Vec<Value>)> = (0..napps).map(|a| ((0..rng.below(3)).map(|k| (10 * (a + 1) + k + 1) as i64).collect(), vec![])).collect();
     let mut nexth = 1i64;
     // params above each app
